@@ -397,11 +397,15 @@ class TableWaveform(Waveform):
             entries = self._table
 
         for entry1, entry2 in pairwise(entries):
-            indices = slice(sample_times.searchsorted(entry1.t, 'left'),
-                            sample_times.searchsorted(entry2.t, 'right'))
+            # the entry times can be exact rationals (TimeType, e.g. from a table entry '1/10'): locate the samples with
+            # the same doubles the interpolation uses. Compared exactly, float(1/10) > 1/10, i.e. a sample at
+            # float(duration) (the first sample of the time reversed table) was in no segment and stayed NaN
+            t1, t2 = float(entry1.t), float(entry2.t)
+            indices = slice(sample_times.searchsorted(t1, 'left'),
+                            sample_times.searchsorted(t2, 'right'))
             output_array[indices] = \
-                entry2.interp((float(entry1.t), entry1.v),
-                              (float(entry2.t), entry2.v),
+                entry2.interp((t1, entry1.v),
+                              (t2, entry2.v),
                               sample_times[indices])
         return output_array
 
